@@ -250,7 +250,9 @@ PROPS = {
         "workers": 16,
         "engine": "E1-pure",
         "abort_is_violation": True,
-        "technique": "property-based round-trip + differential (crsql_pack_columns) + generated mutations of valid frames under a counting allocator; the thorough tier runs the same oracles over 50x more generated cases",
+        "fuzz_targets": {"frames": {"runs": 20_000_000, "seeds": "frames", "jobs": 6, "max_len": 8192},
+                         "keys": {"runs": 20_000_000, "seeds": "keys", "jobs": 4, "max_len": 2048}},
+        "technique": "property-based round-trip + differential (crsql_pack_columns) + generated mutations of valid frames under a counting allocator; the thorough tier additionally runs two coverage-guided libFuzzer targets (/verif/fuzz: arbitrary bytes into the three real frame decoders and into unpack_columns, the same hostile-bytes oracle inside the target, corpus seeded with valid frames from the generators, 6 + 4 processes x 20 M executions)",
         "level_text": ("generated-input search with four oracles: decode(encode(x)) == x for every wire type; pack/unpack round trip and byte-for-byte "
                        "agreement with the database extension's own packing; decoding mutated valid frames never panics, never aborts, never allocates "
                        "beyond 64 KiB + 32 x input length (counting global allocator, requests > 1 GiB refused and turned into a caught panic), yields "
@@ -326,6 +328,8 @@ ENGINES = [
      "kind_free_text": "in-process nodes from the real setup(); the harness is network, scheduler and sync driver, requests go through the real HTTP handlers (C15, C19 also drive the real CLI binary; C20's mix sub-campaign uses a live agent)"},
     {"name": "E3-live", "path": "/verif/harness", "serves_properties": _serves("E3-live"),
      "kind_free_text": "full agents on loopback (HTTP API, QUIC) driven by generated request/change/attach/shutdown sequences"},
+    {"name": "E4-fuzz", "path": "/verif/fuzz", "serves_properties": ["C09"],
+     "kind_free_text": "cargo-fuzz / libFuzzer targets (frames, keys) that include the harness' C09 oracle by path; run by ./check C09 --tier thorough after the generated campaigns, crash artifacts are turned into harness replays"},
 ]
 
 # properties not (yet) claimed; kept current as checks land
